@@ -8,7 +8,7 @@ from vlib import render as RR
 
 ID = "C03"
 # look-alikes of prelude names (vlib/defs.py HOSTILE) this check's derives are immune to on the unchanged tree
-HOSTILE_OK = ['Default', 'Into', 'Result', 'Some', 'Ok', 'Iterator', 'Clone', 'AsRef', 'Send', 'PhantomData']
+HOSTILE_OK = ['Default', 'Into', 'Result', 'Some', 'Ok', 'Iterator', 'Clone', 'AsRef', 'Send', 'PhantomData', 'IterGet', 'm_matches', 'm_assert', 'm_fmt']
 PROP_FILE = "Props/C03.v"
 RULE = ("definitions: systematic kind x {no attr, to_string, every ORDER of 1-3 serialize literals with pairwise distinct byte "
         "lengths (so `last` differs from `longest` in most), both} x prefix {none, empty, ASCII, non-ASCII} x serialize_all x "
@@ -115,6 +115,19 @@ def build_corpus(tier, rng):
               Variant("Named", "named", [Field("u8", "f")], [dw("dw_u8_b"), ser("nm")]), Variant("Plain", "unit"),
               Variant("Two", "tuple", [Field("u8"), Field("String")], [dw("dwm::dw_u8_path")])]
         cands.append(("default-with", Item("E", vs, metas=([EM("sall", sty)] if sty else []) + ([EM("prefix", pf)] if pf else []))))
+    # TIES and REPEATS among the serialize literals of one variant: the LAST of the longest wins, and a repeated literal keeps its positions
+    tie_sets = [["ab2", "cd2", "ab2"], ["x", "y"], ["aa", "bb", "aa", "cc"], ["one", "two", "one"], ["p", "long", "qq", "long", "rrrr", "ssss"], ["same", "same"],
+                ["é", "zz"], ["zz", "é"]]
+    for sty, pf in ((None, None), ("snake_case", "p.")):
+        vs = []
+        for i, st in enumerate(tie_sets):
+            kind = ["unit", "tuple", "named"][i % 3]
+            v = Variant("Tie%d" % i, kind, [Field("u8")] if kind == "tuple" else ([Field("u8", "f")] if kind == "named" else []))
+            v.metas = [ser("%s%d" % (t, i)) for t in st]
+            if i % 4 == 1:
+                v.groups = [1, 1]
+            vs.append(v)
+        cands.append(("ties", Item("E", vs, metas=([EM("sall", sty)] if sty else []) + ([EM("prefix", pf)] if pf else []) + [EM("cis")])))
     from props import c01
     for i, it in enumerate(c01.nonascii()):
         if i % 3 == 1:
@@ -131,7 +144,7 @@ def build_corpus(tier, rng):
     infos = G.classify(ID, [it for _, it in cands])
     n = 0
     for (fam, it), info in zip(cands, infos):
-        if info is None or not lengths_ok(it):
+        if info is None or (fam != "ties" and not lengths_ok(it)):
             continue
         n += 1
         deprecated = (n % 3 == 0) and not any(m.kind == "cis" for m in it.metas)
